@@ -36,6 +36,25 @@ ENGINES = {
     },
 }
 
+ENGINES["store"] = {
+    "pkg": "./harness/store",
+    "instr": ["kv/memory:2", "kv/aof:1", "kv/sqlite3:1", "util/atomic:1"],
+    "inject": {},
+    "real": ["kv/memory (instrumented: every atomic / skipmap access a scheduling point)", "kv/aof (instrumented) + tidwall/wal logic", "kv/sqlite3 + SQLite (WASM, ncruces) + its OS VFS, WAL mode, file locks, shared memory"],
+    "stub": ["file system under tidwall/wal -> simfs in-memory disk with an operation log (os/io/ioutil imports redirected in a build-time copy of the module)",
+             "SQLite default VFS -> recording wrapper around the real OS VFS (default-VFS override in a build-time copy of ncruces vfs/registry.go)",
+             "clock -> testing/synctest fake clock"],
+}
+
+ENGINES["syncobj"] = {
+    "pkg": "./harness/syncobj",
+    "instr": ["chord:1:node_state.go=2", "util/bufconn:1", "spec/tun:1", "util/promise:2", "kv/memory:2", "kv/aof:1", "util/atomic:1"],
+    "inject": {"chord/zz_verif_export.go": "inject/chord/zz_verif_export.go"},
+    "real": ["chord/node_state.go (every atomic / skipmap access a scheduling point)", "spec/chord/retry.go + avast/retry-go", "spec/rpc framing (Send/Receive/BoundedReceive)",
+             "util/bufconn (mutex and both condition variables emulated by the scheduler)", "spec/tun/pipe.go", "util/promise"],
+    "stub": ["streams -> seeded chunking / truncating readers and short writers; scripted VNode behind the retry wrapper", "clock -> testing/synctest fake clock"],
+}
+
 def ring(level="exploration", quick=240, thorough=6000, note=""):
     return {"engine": "ring", "level": level, "quick": quick, "thorough": thorough, "note": note}
 
@@ -53,13 +72,47 @@ PROPS = {
     "C14": ring(quick=240, thorough=6000),
 }
 
+def store(level="exploration", quick=600, thorough=20000):
+    return {"engine": "store", "level": level, "quick": quick, "thorough": thorough}
+
+PROPS.update({
+    "C16": store(quick=1600, thorough=60000),
+    "C17": store(quick=1200, thorough=40000),
+    "C18": store(quick=1600, thorough=60000),
+    "C20": store(level="fault_enumeration", quick=320, thorough=8000),
+    "C21": store(quick=800, thorough=20000),
+    "C22": store(level="fault_enumeration", quick=160, thorough=4000),
+    "C23": store(level="fault_enumeration", quick=64, thorough=1600),
+    "C24": store(level="fault_enumeration", quick=256, thorough=256),
+    # leases: through the DHT under churn (ring) and on every backend (store)
+    "C19": {"engine": "ring", "engines": ["ring", "store"], "level": "exploration", "quick": 240, "thorough": 6000, "quick_store": 800, "thorough_store": 30000},
+})
+
+def syncobj(level="exploration", quick=2000, thorough=100000):
+    return {"engine": "syncobj", "level": level, "quick": quick, "thorough": thorough}
+
+PROPS.update({
+    "C13": syncobj(quick=3000, thorough=300000),
+    "C15": syncobj(level="fault_enumeration", quick=4000, thorough=120000),
+    "C38": syncobj(level="fault_enumeration", quick=600, thorough=20000),
+    "C39": syncobj(quick=3000, thorough=200000),
+    "C40": syncobj(quick=2000, thorough=100000),
+    "C46": syncobj(quick=3000, thorough=200000),
+})
+
 RULES = {
+    "syncobj": "one evaluation = one seeded plan (operations per task, chunk sizes, delays, close/cancel/deadline instants, scripted outcomes) executed on the real object under a seeded schedule; distinct = distinct (task, yield site) sequences (for the enumerated checks C15/C38: distinct cells); non-trivial by the per-check rule in the harness (more than one successful transition / payload larger than the buffer / more than one task ...)",
+    "store": "one evaluation = one seeded history of KV operations applied to one backend (memory / append-only log on the simulated disk / SQLite through the recording VFS) inside a simulated run, compared with the reference model operation by operation; "
+             "non-trivial = the history drove the model through more than 3 distinct states; distinct = distinct histories (hash of the plan) - for concurrent runs distinct (task, yield site) sequences",
     "ring": "one evaluation = one simulated execution of a seeded plan (node ids, intervals, latency model, join/leave histories, client operation streams) under a seeded schedule; "
             "non-trivial = the run reached the state the property is about (probe counters: a key transfer with >=1 key happened / a lookup hit a node inside Join / more than one node incarnation); "
             "distinct = distinct hash of the (task, yield site) sequence, i.e. distinct interleavings",
 }
 
 # --------------------------------------------------------------------------- build
+
+class BuildError(Exception):
+    pass
 
 def sh(cmd, cwd=None, env=None, timeout=None, capture=True):
     p = subprocess.run(cmd, cwd=cwd, env=env or GOENV, timeout=timeout,
@@ -85,12 +138,64 @@ def gen_gomod(dst):
         with open(os.path.join(dst, "go.sum"), "a") as f:
             f.write(open(extra).read())
 
+def modcache():
+    rc, out = sh([GO, "env", "GOMODCACHE"])
+    return out.strip() or os.path.expanduser("~/go/pkg/mod")
+
+def dep_version(mod):
+    m = re.search(r"^\s*%s\s+(\S+)" % re.escape(mod), open(os.path.join(REPO, "go.mod")).read(), re.M)
+    if not m:
+        raise BuildError("dependency %s not found in %s/go.mod" % (mod, REPO))
+    return m.group(1)
+
+def prepare_third_party(tmp, sim):
+    """Build-time copies of two dependencies with their disk seam opened (the
+    versions are whatever /repo/go.mod requires):
+      tidwall/wal      os + io/ioutil imports redirected to the simfs shims
+      ncruces/go-sqlite3  vfs/registry.go gets an overridable default VFS"""
+    tp = os.path.join(tmp, "third_party")
+    os.makedirs(tp)
+    mc = modcache()
+    reps = []
+    # --- wal
+    v = dep_version("github.com/tidwall/wal")
+    src = os.path.join(mc, "github.com/tidwall/wal@" + v)
+    dst = os.path.join(tp, "wal")
+    shutil.copytree(src, dst)
+    sh(["chmod", "-R", "u+w", dst])
+    for f in glob.glob(os.path.join(dst, "*_test.go")):
+        os.remove(f)
+    w = open(os.path.join(dst, "wal.go")).read()
+    if '"io/ioutil"' not in w or '\t"os"\n' not in w:
+        raise BuildError("tidwall/wal %s no longer imports os and io/ioutil as expected; the disk seam cannot be opened" % v)
+    w = w.replace('"io/ioutil"', 'ioutil "specterverif/simfs/shimioutil"').replace('\t"os"\n', '\tos "specterverif/simfs/shimos"\n')
+    open(os.path.join(dst, "wal.go"), "w").write(w)
+    reps.append("replace github.com/tidwall/wal => " + dst)
+    # --- go-sqlite3
+    v = dep_version("github.com/ncruces/go-sqlite3")
+    src = os.path.join(mc, "github.com/ncruces/go-sqlite3@" + v)
+    dst = os.path.join(tp, "go-sqlite3")
+    shutil.copytree(src, dst, ignore=shutil.ignore_patterns("*_test.go", "tests", "testdata"))
+    sh(["chmod", "-R", "u+w", dst])
+    rp = os.path.join(dst, "vfs", "registry.go")
+    r = open(rp).read()
+    old = 'if name == "" || name == "os" {\n\t\treturn vfsOS{}\n\t}\n\treturn find(name)'
+    if old not in r:
+        raise BuildError("ncruces/go-sqlite3 %s: vfs/registry.go changed; the default-VFS override cannot be applied" % v)
+    r = r.replace(old, 'if name == "" || name == "os" {\n\t\tif DefaultVFS != nil {\n\t\t\treturn DefaultVFS\n\t\t}\n\t\treturn vfsOS{}\n\t}\n\treturn find(name)')
+    r += "\n// DefaultVFS, when set, is returned instead of the OS VFS (verification harness only).\nvar DefaultVFS VFS\n\n// OSVFS returns the real OS VFS.\nfunc OSVFS() VFS { return vfsOS{} }\n"
+    open(rp, "w").write(r)
+    reps.append("replace github.com/ncruces/go-sqlite3 => " + dst)
+    with open(os.path.join(sim, "go.mod"), "a") as f:
+        f.write("\n" + "\n".join(reps) + "\n")
+
 def build(engine, tmp):
     """returns path of the harness test binary"""
     e = ENGINES[engine]
     sim = os.path.join(tmp, "sim")
     shutil.copytree(os.path.join(VERIF, "sim"), sim, ignore=shutil.ignore_patterns("*.test", "*.jsonl"))
     gen_gomod(sim)
+    prepare_third_party(tmp, sim)
     bdir = os.path.join(tmp, "build")
     os.makedirs(bdir)
     extra = {"Replace": {os.path.join(REPO, k): os.path.join(sim, v) for k, v in e.get("inject", {}).items()}}
@@ -107,8 +212,6 @@ def build(engine, tmp):
         raise BuildError("compiling the harness against %s failed (a change that does not compile with the verif accessors is a build failure, not a violation):\n%s" % (REPO, out[-4000:]))
     return binp
 
-class BuildError(Exception):
-    pass
 
 # --------------------------------------------------------------------------- run
 
@@ -212,6 +315,14 @@ def minimise(binp, prop, tier, engine, rec, viol, tmp, budget_s=150):
             ops = n.get("ops") or []
             for k in range(len(ops) - 1, 0, -1):
                 c = json.loads(json.dumps(pl)); c["nodes"][ni]["ops"] = ops[:k]; yield c
+        ops = pl.get("ops") or []
+        if len(ops) > 1:
+            for k in range(len(ops) - 1, 0, -1):
+                c = json.loads(json.dumps(pl)); c["ops"] = ops[:k]; yield c
+                if k < len(ops) - 1:
+                    break
+            for i in range(len(ops)):
+                c = json.loads(json.dumps(pl)); del c["ops"][i]; yield c
         for ci, cl in enumerate(pl.get("clients") or []):
             ops = cl.get("ops") or []
             if len(ops) > 1:
@@ -247,29 +358,46 @@ def main():
     if prop not in PROPS:
         print("unknown property", prop); sys.exit(2)
     spec = PROPS[prop]
-    engine = spec["engine"]
+    engines = spec.get("engines") or [spec["engine"]]
     seed = int(os.environ.get("VERIF_SEED", "1"))
     t0 = time.time()
     tmp = tempfile.mkdtemp(prefix="verif-%s-" % prop, dir=os.environ.get("VERIF_TMP", tempfile.gettempdir()))
     code = 2
     try:
-        try:
-            binp = build(engine, tmp)
-        except BuildError as e:
-            print("BUILD-FAILURE (exit 2, not a violation):\n" + str(e))
-            sys.exit(2)
-        build_s = time.time() - t0
         if a.replay:
-            code = do_replay(binp, prop, tier, engine, a.replay, tmp)
+            eng = json.load(open(a.replay)).get("harness") or engines[0]
+            try:
+                binp = build(eng, os.path.join(tmp, eng))
+            except BuildError as e:
+                print("BUILD-FAILURE (exit 2, not a violation):\n" + str(e))
+                sys.exit(2)
+            code = do_replay(binp, prop, tier, eng, a.replay, tmp)
             return
-        runs = a.runs or spec[tier]
-        wall = a.wall or (75 if tier == "quick" else 1500)
-        nw = max(1, min(NCPU, runs))
-        per = (runs + nw - 1) // nw
-        base = (seed * 1_000_003) % (1 << 40)
-        seeds = [(base + w * per, per) for w in range(nw)]
-        recs, crashed = run_workers(binp, prop, tier, seeds, tmp, wall)
-        code = report(prop, tier, engine, seed, recs, crashed, binp, tmp, t0, build_s, runs)
+        allrecs, allcrashed, bins, build_s, planned = [], [], {}, 0.0, 0
+        for eng in engines:
+            tb = time.time()
+            etmp = os.path.join(tmp, eng)
+            os.makedirs(etmp)
+            try:
+                binp = build(eng, etmp)
+            except BuildError as e:
+                print("BUILD-FAILURE (exit 2, not a violation):\n" + str(e))
+                sys.exit(2)
+            build_s += time.time() - tb
+            bins[eng] = binp
+            runs = a.runs or spec.get(tier + "_" + eng) or spec[tier]
+            planned += runs
+            wall = a.wall or (75 if tier == "quick" else 1500)
+            nw = max(1, min(NCPU, runs))
+            per = (runs + nw - 1) // nw
+            base = (seed * 1_000_003) % (1 << 40)
+            seeds = [(base + w * per, per) for w in range(nw)]
+            recs, crashed = run_workers(binp, prop, tier, seeds, etmp, wall)
+            for r in recs:
+                r["_engine"] = eng
+            allrecs += recs
+            allcrashed += crashed
+        code = report(prop, tier, engines, seed, allrecs, allcrashed, bins, tmp, t0, build_s, planned)
     finally:
         if not a.keep_tmp:
             shutil.rmtree(tmp, ignore_errors=True)
@@ -292,8 +420,9 @@ def do_replay(binp, prop, tier, engine, path, tmp):
     print("replay did not reproduce a violation of %s (classes seen: %s)" % (prop, [v["class"] for v in r.get("violations") or []]))
     return 0
 
-def report(prop, tier, engine, seed, recs, crashed, binp, tmp, t0, build_s, planned):
+def report(prop, tier, engines, seed, recs, crashed, bins, tmp, t0, build_s, planned):
     spec = PROPS[prop]
+    engine = engines[0]
     known = load_known()
     viols, knownhits = [], collections.OrderedDict()
     probes, faults = collections.Counter(), collections.Counter()
@@ -334,6 +463,9 @@ def report(prop, tier, engine, seed, recs, crashed, binp, tmp, t0, build_s, plan
                             "plan_digest": {k: pl.get(k) for k in ("profile", "stab", "fix", "pred", "sched", "net") if k in pl},
                             "nodes": [{"id": n.get("id"), "ops": [o.get("kind") for o in n.get("ops", [])]} for n in (pl.get("nodes") or [])][:12],
                             "clients": [[o.get("kind") for o in c.get("ops", [])][:12] for c in (pl.get("clients") or [])][:4],
+                            "store_plan": {k: pl.get(k) for k in ("backend", "hash", "alphabet", "tasks") if k in pl},
+                            "ops": [(o.get("kind"), o.get("key"), o.get("val")) for o in (pl.get("ops") or [])][:25] if isinstance(pl.get("ops"), list) else None,
+                            "config": pl if "user_version" in pl else None,
                             "trace_tail": (r.get("events") or [])[-12:]})
     if not samples and recs:
         samples.append({"seed": recs[0]["seed"], "steps": recs[0].get("steps")})
@@ -343,7 +475,7 @@ def report(prop, tier, engine, seed, recs, crashed, binp, tmp, t0, build_s, plan
         "coverage": {
             "evaluations": len(recs),
             "distinct_nontrivial": len(nontrivial_scheds),
-            "rule": RULES[engine],
+            "rule": " | ".join(RULES[e] for e in engines),
             "samples": samples,
             "planned_runs": planned,
             "distinct_interleavings": len(scheds),
@@ -355,8 +487,8 @@ def report(prop, tier, engine, seed, recs, crashed, binp, tmp, t0, build_s, plan
             "probe_counters": dict(probes),
             "aborted_runs": dict(aborts),
             "premise_unreached_runs": premise,
-            "components_real": ENGINES[engine]["real"],
-            "components_stub": ENGINES[engine]["stub"],
+            "components_real": sum((ENGINES[e]["real"] for e in engines), []),
+            "components_stub": sum((ENGINES[e]["stub"] for e in engines), []),
             "known_findings_hit": [k for k in knownhits],
             "build_seconds": round(build_s, 1),
             "repo_tree": repo_tree_id(),
@@ -393,6 +525,8 @@ def report(prop, tier, engine, seed, recs, crashed, binp, tmp, t0, build_s, plan
     if viols:
         viols.sort(key=lambda rv: (rv[0].get("steps", 0)))
         r, v = viols[0]
+        engine = r.get("_engine", engine)
+        binp = bins[engine]
         # re-run the seed alone to obtain its full record (plan, trace), then minimise
         full = rerun_full(binp, prop, tier, r["seed"], tmp) or r
         vv = next((x for x in (full.get("violations") or []) if x["prop"] == prop and x["class"] == v["class"]), v)
